@@ -6,7 +6,10 @@ SPEC = {
         {"dialect": "flush", "quick_n": 6000, "thorough_n": 200000, "judge": "judge-c01-flush"},
         {"dialect": "merge", "quick_n": 10000, "thorough_n": 400000, "judge": "judge-c01-merge"},
     ],
-    "oracles": [],
+    "oracles": [
+        {"name": "hist", "quick_args": ["-props", "C01", "-n", "25", "-steps", "40"],
+         "thorough_args": ["-props", "C01", "-n", "400", "-steps", "70", "-profile", "hold,samebox"], "timeout": 3000},
+    ],
     "trusted_base": [
         "Lean 4.33.0 kernel; axioms limited to propext, Classical.choice, Quot.sound (audited per theorem)",
         "hand-written model GluonModel/Model/{Flags,Snap,Resp,Responder}.lean of responder.handle / popResponders / State.flushResponses / response.Merge, tied by the `flush` and `merge` correspondence dialects (differential testing, not proof)",
